@@ -94,6 +94,11 @@ class LocalHashFileDB(HashFileDB):
 
         return ret
 
+    def list_oids_exists(self, oids, jobs=None):
+        # same as oids_exist(): an object only exists here if it is intact, so
+        # that leftovers of an interrupted add are never mistaken for objects
+        yield from self.oids_exist(list(oids), jobs=jobs)
+
     def _list_paths(self, prefix=None):
         assert self.path is not None
         if prefix:
